@@ -100,6 +100,20 @@ def run_for(run, mod, P, jobs=16, seed=0):
                 ov[rel] = src
         tasks.append((prop, "twin", tname, ov, repo_root))
 
+    # corrected versions of seeded commits (same commit, defect removed; written by
+    # independent sub-agents, seeded/<name>/fixed.diff): a correct commit is never reported
+    n_correct_stale = 0
+    for d in sorted(glob.glob(os.path.join(ROOT, "seeded", "C*"))):
+        fp = os.path.join(d, "fixed.diff")
+        if not os.path.exists(fp):
+            continue
+        with open(fp) as f:
+            ov = patch.overlay_for(f.read(), rd)
+        if ov is None:
+            n_correct_stale += 1
+            continue
+        tasks.append((prop, "correct", os.path.basename(d), ov, repo_root))
+
     results = []
     if tasks:
         with ProcessPoolExecutor(max_workers=max(1, min(jobs, len(tasks)))) as ex:
@@ -113,6 +127,12 @@ def run_for(run, mod, P, jobs=16, seed=0):
     silent = [r for r in tw if r[2] == "silent"]
     tw_fired = [r for r in tw if r[2] == "violation"]
     tw_err = [r for r in tw if r[2] == "analysis-error"]
+    co = [r for r in results if r[0] == "correct"]
+    co_fired = [r for r in co if r[2] == "violation"]
+    co_err = [r for r in co if r[2] == "analysis-error"]
+    for r in co_fired:
+        print(f"SELFTEST-WEAK property={prop} corrected commit {r[1]} (property holds) is reported: "
+              f"{r[3][0] if r[3] else ''}")
     for r in missed:
         print(f"SELFTEST-WEAK property={prop} mutant {r[1]} was not detected")
     for r in mut_err:
@@ -126,7 +146,9 @@ def run_for(run, mod, P, jobs=16, seed=0):
               f"(ANALYSIS-ERROR): {r[3][0] if r[3] else ''}")
     print(f"[{prop}] selftest: mutants fired {len(fired)}/{len(mut)} "
           f"(analysis-error {len(mut_err)}, stale {len(stale)}); twins silent "
-          f"{len(silent)}/{len(tw)} (false alarm {len(tw_fired)}, not understood {len(tw_err)})")
+          f"{len(silent)}/{len(tw)} (false alarm {len(tw_fired)}, not understood {len(tw_err)}); "
+          f"corrected commits unreported {len(co) - len(co_fired)}/{len(co)} "
+          f"(not understood {len(co_err)}, stale {n_correct_stale})")
     run.extra["selftest"] = {
         "mutants": len(mut), "mutants_fired": len(fired),
         "mutants_missed": [r[1] for r in missed],
@@ -135,6 +157,9 @@ def run_for(run, mod, P, jobs=16, seed=0):
         "twins": len(tw), "twins_silent": len(silent),
         "twins_false_alarm": [r[1] for r in tw_fired],
         "twins_not_understood": [r[1] for r in tw_err],
+        "corrected_commits": len(co),
+        "corrected_commits_reported": [r[1] for r in co_fired],
+        "corrected_commits_not_understood": [r[1] for r in co_err],
         "details": [{"kind": r[0], "name": r[1], "outcome": r[2], "first": r[3][:1]}
                     for r in results],
     }
